@@ -55,11 +55,19 @@ fn case(ctx: &mut Ctx, r: &mut Rng, n: usize) {
     if r.below(4) == 0 {
         params.max_tx_size = 1500 + r.below(2500);
     }
+    if r.below(5) == 0 {
+        // value sizes that a few dozen small assets fill
+        params.max_value_size = 150 + r.below(900);
+    }
     let (cfg, _) = make_config(&params, r);
     let mut s = Scn::new(r, ring, Focus::default());
     let tk = s.key_ix();
     let target = if s.r.below(8) == 0 { ring.byron[0].addr.to_address() } else { s.key_address(tk) };
-    let shape = s.r.below(5); // 0 pure ada, 1 few assets, 2 many policies, 3 many assets per policy, 4 mixed
+    let shape = match s.r.below(6) {
+        // the dense shape costs (UTxOs x assets): kept to small sets
+        5 if n > 24 => 3,
+        x => x,
+    }; // 0 pure ada, 1 few assets, 2 many policies, 3 many assets per policy, 4 mixed, 5 dense (many short-named assets of one policy)
     let owners = 1 + s.r.usize(5);
     let owner_keys: Vec<usize> = (0..owners).map(|_| s.key_ix()).collect();
     let mut utxos_csl = TransactionUnspentOutputs::new();
@@ -84,12 +92,17 @@ fn case(ctx: &mut Ctx, r: &mut Rng, n: usize) {
                 1 => (1, 1 + s.r.below(2)),
                 2 => (1 + s.r.below(6), 1 + s.r.below(2)),
                 3 => (1, 1 + s.r.below(40)),
+                5 => (1, 24 + s.r.below(100)),
                 _ => (1 + s.r.below(3), 1 + s.r.below(8)),
             };
             for p in 0..npol {
                 let pol = vec![0xc0 + ((j as u64 * 7 + p) % if shape == 2 { 40 } else { 4 }) as u8; 28];
                 for a in 0..nas {
-                    let name = match (a + j as u64) % 3 {
+                    let name = if shape == 5 {
+                        // distinct 1- and 2-byte names: an output holds dozens to hundreds of them (the per-policy
+                        // map head grows at 24 and 256 entries)
+                        if a < 200 { vec![a as u8] } else { vec![(a >> 8) as u8 + 1, a as u8] }
+                    } else { match (a + j as u64) % 3 {
                         0 => vec![],
                         1 => vec![0x30 + (a % 60) as u8],
                         _ => {
@@ -97,7 +110,7 @@ fn case(ctx: &mut Ctx, r: &mut Rng, n: usize) {
                             nm[31] = a as u8;
                             nm
                         }
-                    };
+                    } };
                     let q = match s.r.below(4) {
                         0 => 1,
                         1 => (1i128 << 32) + s.r.below(5) as i128,
